@@ -20,7 +20,7 @@ META = dict(
     id='C18',
     level='proof',
     technique='Coq proof (decode . encode = id for the emacs, csv and xml escaping functions against reader specifications; token/parenthesis structure of the emacs writer; refutation witnesses for the default csv quoting) + differential correspondence of the extracted writers against ledger + python csv/xml.etree/S-expression oracles',
-    level_text='Theorems in coq/Properties/Properties_C18.v state for ALL byte strings that the Emacs-Lisp reader recovers every string escape_string writes and that the whole emacs output lexes to the expected, balanced token list; that XML character-data decoding inverts boost\'s entity encoding and the encoded text has no raw < and no & outside the six references; that an RFC 4180 reader recovers every row written with quoted_rfc; that the DEFAULT csv format (regenerated from report.h on every run) is recovered by the RFC reader exactly when no field holds a double quote and by the backslash reader when no field holds a backslash, and is refuted for each reader by a computed witness (finding F10). The model is tied to the code by comparing, byte for byte, ledger\'s csv (default and generated formats), emacs and xml (transactions, account tree, commodities) output with the extracted model on generated journals.',
+    level_text='Theorems in coq/Properties/Properties_C18.v state for ALL byte strings that the Emacs-Lisp reader recovers every string escape_string writes, that the whole emacs output lexes to the expected balanced token list and reads back as the tree (file line (hi lo 0) code payee (line account amount state [cost] [note])...); that XML character-data decoding inverts boost\'s entity encoding, the encoded text has no raw < and no & outside the six references, and a tag scanner finds in what the modelled property-tree writer prints exactly the elements of the tree, properly nested (for the transactions, accounts and commodities sections ledger builds, whatever the journal texts are); that an RFC 4180 reader recovers every row written with quoted_rfc; that the DEFAULT csv format (regenerated from report.h on every run) is recovered by the RFC reader when no field holds a double quote and by the backslash reader when no field holds a backslash, and is refuted for each reader, and for both at once, by computed witnesses (finding F10), while the proposed repair (also escape the backslash) is proved to give the full round trip. The model is tied to the code by comparing, byte for byte, ledger\'s csv (default and generated formats), emacs and xml (transactions, account tree, commodities) output with the extracted model on generated journals, and its reader specifications are cross-checked against python csv, expat and an S-expression reader on ledger\'s real output.',
     level_note='Trusted: Coq kernel; extraction + OCaml driver and this harness for the correspondence. boost::property_tree\'s XML writer and entity encoder are modelled (Model/Escape.v write_el, xml_encode) and validated by the correspondence, not verified. Amount texts (quantity, commodity, annotated amount) are taken from the register report, as the property text does. The running <total>, <account-amount>, <account-total> subtrees and the id/ref addresses of the xml output are not compared.',
     design_ref='DESIGN.md section 7 C18, section 9 F10',
     assumptions=['free-text fields survive journal parsing unchanged (see EXCLUSIONS in harness/props/c18.py): no tab/newline inside a field, no double space, a payee does not start with `(` unless a code precedes it nor with `*`/`!` on an uncleared transaction, a code has no `)`, an account name is not wrapped in ()/[]/<>, has no empty `:` component and does not start with `;` `*` `!`, a note has no token starting or ending with `:` (metadata) and no `[` before a digit or `=` (date override)',
